@@ -199,7 +199,8 @@ Definition h_unchoke (s : lst) (p : Z) : lst * list Z :=
   let s1 := upd_p s p (fun q => set_choking q false) in
   match q_dl (get_p s p) with
   | None => (s1, [p])
-  | Some d => if l_af d then (s1, []) else (do_request s1 p, [])
+  | Some d => if l_af d then (do_request s1 p, [])   (* an allowed-fast download: blocks the peer rejected meanwhile are asked for again *)
+              else (do_request s1 p, [])
   end.
 
 Definition h_choke (s : lst) (p : Z) : lst * list Z :=
